@@ -21,3 +21,23 @@ func VerifReset() {
 		return true
 	})
 }
+
+// VerifNewTimeSeriesCounter builds an unregistered time-series counter.
+func VerifNewTimeSeriesCounter() *Counter { return &Counter{name: "verif", timeSeries: true} }
+
+// VerifForceRollUp makes the next operation of the counter trigger the roll-up.
+func (c *Counter) VerifForceRollUp() {
+	c.mu.Lock()
+	c.op = rollUpInterval - 1
+	c.mu.Unlock()
+}
+
+// VerifHistory returns (time in ms, delta, roll-up label) of every history entry.
+func (c *Counter) VerifHistory() (out [][3]int64) {
+	c.mu.Lock()
+	defer c.mu.Unlock()
+	for _, h := range c.history {
+		out = append(out, [3]int64{h.GetTimeUnixMilli(), h.GetDelta(), int64(h.GetRollUp())})
+	}
+	return out
+}
